@@ -19,7 +19,7 @@ from ..space import Alt, Const, Map, Prod
 
 ID = "C12"
 LEVEL = "fault_enumeration"
-RULE = ("full product: script file(s) from a 17-name alphabet (incl. a scheme-like 'ui:main.js') (space % # ? + ; & ' \" <> %41 non-ASCII leading-dot "
+RULE = ("full product: script file(s) from a 17-name alphabet (incl. a scheme-like 'ui:main.js' and a name in decomposed Unicode form) (space % # ? + ; & ' \" <> %41 non-ASCII leading-dot "
         "nested-dir plain; singles and adjacent pairs) x stylesheet {none, one} x all_files x source "
         "{directory, importable package, URL with/without trailing slash, none} x libdir {'lib', None, "
         "'x/y'} x include_version x pre-existing target {absent, stale file, stale sub-directory} x "
@@ -33,7 +33,7 @@ ASSUMPTIONS = [
 ]
 
 FILES = ["plain.js", "sp ace.js", "pct%.js", "hash#.js", "q?.js", "plus+.js", "semi;.js", "amp&.js",
-         "apos'.js", 'quot".js', "lt<gt>.js", "%41.js", "é中.js", "sub/dir/n.js", ".dot.js", ".d.d/..in.js", "ui:main.js"]
+         "apos'.js", 'quot".js', "lt<gt>.js", "%41.js", "é中.js", "sub/dir/n.js", ".dot.js", ".d.d/..in.js", "ui:main.js", "re\u0301sume\u0301.js"]
 STYLE = "st yle&.css"
 EXTRA = ["extra.txt", "assets/img.bin", ".hidden.css", ".dotdir/inner.js"]
 _FX = {}
@@ -632,6 +632,87 @@ def fn_lookalike(case):
         shutil.rmtree(tdir, ignore_errors=True)
 
 
+def fn_linked_sources(case):
+    """some of the dependency's source files are symbolic links (relative, pointing outside the directory that is
+    copied), and the output path reaches its directory through a symbolic link followed by '..': every URL in the
+    written file still names a readable file with the source's bytes, next to the file actually written."""
+    from htmltools import HTMLDependency, HTMLDocument, Tag
+    srcshape, outshape, all_files, caller = case
+    viols = []
+    tdir = os.path.realpath(tempfile.mkdtemp(prefix="c", dir=os.path.join(_FX["root"], "t")))
+    try:
+        src = os.path.join(tdir, "pkg", "dist")
+        os.makedirs(os.path.join(src, "sub"))
+        os.makedirs(os.path.join(tdir, "pkg", "build"))
+        content = {"app.js": b"// app", "sub/in.js": b"// in", "plain.css": b"p{}"}
+        if srcshape == "plain":
+            for rel, data in content.items():
+                with open(os.path.join(src, rel), "wb") as f:
+                    f.write(data)
+        else:
+            # the real files live in ../build; dist/ holds relative links to them
+            for rel, data in content.items():
+                real = os.path.join(tdir, "pkg", "build", rel.replace("/", "_"))
+                with open(real, "wb") as f:
+                    f.write(data)
+                up = "../" * (rel.count("/") + 1)
+                os.symlink(up + "build/" + rel.replace("/", "_"), os.path.join(src, rel))
+            if srcshape == "linked-files-and-dir":
+                os.makedirs(os.path.join(tdir, "pkg", "build", "assets"))
+                with open(os.path.join(tdir, "pkg", "build", "assets", "img.bin"), "wb") as f:
+                    f.write(b"IMG")
+                os.symlink("../build/assets", os.path.join(src, "assets"))
+        dep = HTMLDependency("w", "1.0", source={"subdir": src}, script=[{"src": "app.js"}, {"src": "sub/in.js"}],
+                             stylesheet={"href": "plain.css"}, all_files=all_files)
+        # where the page goes
+        real_out = os.path.join(tdir, "releases", "v7")
+        os.makedirs(os.path.join(real_out, "public"))
+        os.makedirs(os.path.join(tdir, "work"))
+        if outshape == "direct":
+            file, real_dir = os.path.join(real_out, "index.html"), real_out
+        elif outshape == "via-symlinked-dir":
+            os.symlink(real_out, os.path.join(tdir, "work", "current"))
+            file, real_dir = os.path.join(tdir, "work", "current", "index.html"), real_out
+        else:   # <symlink>/../index.html : the OS follows the link first, then goes up
+            os.symlink(os.path.join(real_out, "public"), os.path.join(tdir, "work", "current"))
+            file, real_dir = os.path.join(tdir, "work", "current", "..", "index.html"), real_out
+        try:
+            if caller == "tag":
+                ret = Tag("div", "x", dep).save_html(file)
+            else:
+                ret = HTMLDocument(Tag("p", "x"), dep).save_html(file)
+        except Exception as e:
+            viols.append((f"linked:{srcshape}:{outshape}:raises", f"save_html raised {type(e).__name__}: {e}", {}))
+            return (True, "raised", viols, 1)
+        written = os.path.join(real_dir, "index.html")
+        if not os.path.isfile(written):
+            viols.append((f"linked:{outshape}:html-not-written", "the html file is not where the operating system resolves the given path", {}))
+            return (True, None, viols, 1)
+        urls = saved_urls(written)
+        want = {"lib/w-1.0/plain.css": content["plain.css"], "lib/w-1.0/app.js": content["app.js"], "lib/w-1.0/sub/in.js": content["sub/in.js"]}
+        if sorted(urls) != sorted(want):
+            viols.append((f"linked:{srcshape}:{outshape}:urls", "unexpected URLs", {"observed": urls}))
+        for u, data in want.items():
+            pth = os.path.join(real_dir, u)
+            try:
+                got = open(pth, "rb").read()
+            except OSError as e:
+                viols.append((f"linked:{srcshape}:{outshape}:url-dangling", f"URL {u!r}, resolved against the directory of the written "
+                              f"file, names no readable file ({type(e).__name__}); a copied symbolic link may dangle", {}))
+                break
+            if got != data:
+                viols.append((f"linked:{srcshape}:{outshape}:bytes", f"{u!r} is not byte-identical to its source", {}))
+        if all_files and srcshape == "linked-files-and-dir":
+            try:
+                if open(os.path.join(real_dir, "lib/w-1.0/assets/img.bin"), "rb").read() != b"IMG":
+                    raise OSError("bytes differ")
+            except OSError as e:
+                viols.append((f"linked:{srcshape}:{outshape}:all_files", f"assets/img.bin of the source directory has no readable copy ({e})", {}))
+        return (True, (srcshape, outshape), viols, 1)
+    finally:
+        shutil.rmtree(tdir, ignore_errors=True)
+
+
 def fn_pkglayout(case):
     """package sources in unusual layouts: the package's __init__.py is a symbolic link to a file kept
     elsewhere (a 'link farm'); the dependency's files are the ones in the package directory."""
@@ -759,6 +840,11 @@ def plan(tier):
                         Const([[FILES[0]], [FILES[0], FILES[-1]]]), Const([False, True]), Const(["document", "copy_to"])),
              note="the source directory's path has the target directory's path as a string prefix (or the reverse) without being "
                   "inside it: copied like any other"),
+        dict(kind="space", name="symbolic-links-in-the-source-and-in-the-output-path", fn=fn_linked_sources, serial=True,
+             space=Prod(Const(["plain", "linked-files", "linked-files-and-dir"]), Const(["direct", "via-symlinked-dir", "symlink-then-dotdot"]),
+                        Const([False, True]), Const(["document", "tag"])),
+             note="source files that are relative symbolic links to files outside the copied directory (also a linked sub-directory "
+                  "under all_files) x output path given directly / through a symlinked directory / as <symlink>/../index.html"),
         dict(kind="space", name="package-layouts", space=pkglay, fn=fn_pkglayout, serial=True,
              note="package whose __init__.py is a symbolic link to a file kept elsewhere (with / without a stale "
                   "same-named file next to the link target)"),
